@@ -255,9 +255,9 @@ def _eq(kernel, a, b, keys):
     return True
 
 
-def evaluate(ctx, report, cases):
+def prepare(ctx, cases):
+    """phase 0: delta streams are produced by the *specification encoder* in Lean"""
     drv = ctx.driver
-    # phase 0: delta streams are produced by the *specification encoder* in Lean
     dl = [c for c in cases if c["kernel"] == "delta"]
     if dl and ctx.model_ok:
         reps = drv.ask([c["delta_enc"] for c in dl])
@@ -275,6 +275,12 @@ def evaluate(ctx, report, cases):
             c["enc"] = enc
     elif dl:
         cases = [c for c in cases if c["kernel"] != "delta"]
+    return cases
+
+
+def evaluate(ctx, report, cases):
+    drv = ctx.driver
+    cases = prepare(ctx, cases)
     # phase 1: model + spec
     if ctx.model_ok:
         mreps = drv.ask([c["model"] for c in cases])
